@@ -16,21 +16,28 @@ type Map struct {
 }
 
 // NewMap creates a Map; the optional capacity is ignored.
+//
+//go:norace
 func NewMap(capacity ...int) *Map { return &Map{m: map[any]any{}} }
 
 // SimLabel describes the map in reports.
+//
+//go:norace
 func (m *Map) SimLabel() string { return "map" }
 
+//go:norace
 func (m *Map) point() {
 	Point(KMap, m, nil)
 }
 
 // Load returns the value stored for key.
+//
+//go:norace
 func (m *Map) Load(key any) (any, bool) {
 	m.point()
-	m.mu.Lock()
+	qlock(&m.mu)
 	v, ok := m.m[key]
-	m.mu.Unlock()
+	qunlock(&m.mu)
 	if ok {
 		RaceAcquire(unsafe.Pointer(m))
 	}
@@ -38,23 +45,27 @@ func (m *Map) Load(key any) (any, bool) {
 }
 
 // Store sets the value for key.
+//
+//go:norace
 func (m *Map) Store(key, value any) {
 	m.point()
 	RaceReleaseMerge(unsafe.Pointer(m))
-	m.mu.Lock()
+	qlock(&m.mu)
 	if _, ok := m.m[key]; !ok {
 		m.keys = append(m.keys, key)
 	}
 	m.m[key] = value
-	m.mu.Unlock()
+	qunlock(&m.mu)
 }
 
 // LoadOrStore returns the existing value for key if present, else stores value.
+//
+//go:norace
 func (m *Map) LoadOrStore(key, value any) (any, bool) {
 	m.point()
 	RaceReleaseMerge(unsafe.Pointer(m))
-	m.mu.Lock()
-	defer m.mu.Unlock()
+	qlock(&m.mu)
+	defer qunlock(&m.mu)
 	if v, ok := m.m[key]; ok {
 		RaceAcquire(unsafe.Pointer(m))
 		return v, true
@@ -64,10 +75,11 @@ func (m *Map) LoadOrStore(key, value any) (any, bool) {
 	return value, false
 }
 
+//go:norace
 func (m *Map) snapshot() []any {
-	m.mu.Lock()
+	qlock(&m.mu)
 	ks := append([]any(nil), m.keys...)
-	m.mu.Unlock()
+	qunlock(&m.mu)
 	if s := Active(); s != nil && len(ks) > 1 {
 		// iteration order is a PRNG choice (Go map order is random)
 		p := s.Aux.Perm(len(ks))
@@ -81,12 +93,14 @@ func (m *Map) snapshot() []any {
 }
 
 // Range calls f for each entry present; like sync.Map it holds no lock while f runs.
+//
+//go:norace
 func (m *Map) Range(f func(key, value any) bool) {
 	m.point()
 	for _, k := range m.snapshot() {
-		m.mu.Lock()
+		qlock(&m.mu)
 		v, ok := m.m[k]
-		m.mu.Unlock()
+		qunlock(&m.mu)
 		if !ok {
 			continue
 		}
@@ -98,13 +112,15 @@ func (m *Map) Range(f func(key, value any) bool) {
 }
 
 // Random returns some entry.
+//
+//go:norace
 func (m *Map) Random() (any, any, bool) {
 	m.point()
 	ks := m.snapshot()
 	for _, k := range ks {
-		m.mu.Lock()
+		qlock(&m.mu)
 		v, ok := m.m[k]
-		m.mu.Unlock()
+		qunlock(&m.mu)
 		if ok {
 			RaceAcquire(unsafe.Pointer(m))
 			return k, v, true
@@ -114,9 +130,11 @@ func (m *Map) Random() (any, any, bool) {
 }
 
 // Delete removes key.
+//
+//go:norace
 func (m *Map) Delete(key any) {
 	m.point()
-	m.mu.Lock()
+	qlock(&m.mu)
 	if _, ok := m.m[key]; ok {
 		delete(m.m, key)
 		for i, k := range m.keys {
@@ -126,23 +144,27 @@ func (m *Map) Delete(key any) {
 			}
 		}
 	}
-	m.mu.Unlock()
+	qunlock(&m.mu)
 }
 
 // Clear removes everything.
+//
+//go:norace
 func (m *Map) Clear() {
 	m.point()
-	m.mu.Lock()
+	qlock(&m.mu)
 	m.keys = nil
 	m.m = map[any]any{}
-	m.mu.Unlock()
+	qunlock(&m.mu)
 }
 
 // Len returns the number of entries.
+//
+//go:norace
 func (m *Map) Len() int {
 	m.point()
-	m.mu.Lock()
+	qlock(&m.mu)
 	n := len(m.m)
-	m.mu.Unlock()
+	qunlock(&m.mu)
 	return n
 }
